@@ -25,6 +25,51 @@ def pk(f, i):
     return ("param", f.params[i]["d"], f.params[i]["n"])
 
 
+def _merge_by_interpretation(r6, db, f, cls, coeffs, cfgname):
+    """operator+= of a term is straight-line arithmetic on its members (possibly through helpers): its extracted body is
+    evaluated on two symbolic terms (weights W, W' as positive integers, poles and coefficients as symbols) and the
+    members afterwards are compared with the documented merge.  Decides the rule however the arithmetic is written."""
+    from pv.summ import Interp, Obj, Thrown
+    W, W2 = sp.Symbol("W", positive=True, integer=True), sp.Symbol("W'", positive=True, integer=True)
+    P = [sp.Symbol("P%d" % i, real=True) for i in range(3)]
+    Q = [sp.Symbol("P'%d" % i, real=True) for i in range(3)]
+    C = {c: sp.Symbol(c) for c in coeffs}
+    C2 = {c: sp.Symbol(c + "'") for c in coeffs}
+
+    def mk(w, poles, cs):
+        fl = {cls + "::Weight": w, cls + "::Poles": list(poles), cls + "::isz4": sp.Symbol("isz4"), cls + "::isz1z2": sp.Symbol("isz1z2")}
+        for c in coeffs:
+            fl[cls + "::" + c] = cs[c]
+        return Obj(cls.split("::")[-1], **fl)
+    a, b = mk(W, P, C), mk(W2, Q, C2)
+    ip = Interp(db, {})
+    try:
+        ip.call_fn(f, [b], this=a)
+    except Thrown as t:
+        raise AnalysisBroken("%s::operator+= throws %s" % (cls, t.tt))
+    for i in range(3):
+        site = "%s::operator+=:Poles[%d]" % (cls, i)
+        got = a.f[cls + "::Poles"][i]
+        want_ = (W * P[i] + W2 * Q[i]) / (W + W2)
+        if sp.simplify(sp.sympify(got) - want_) == 0:
+            r6.ok(site, f.loc(), "== (W P + W' P')/(W + W') (interpreted summary)", cfgname)
+        else:
+            r6.bad(site, f.loc(), "merged pole %d is %s, expected %s (the weights before the merge, W and W', must be used)" % (i, sp.simplify(got), want_), cfgname)
+    for fldname, want_ in [("Weight", W + W2)] + [(c, C[c] + C2[c]) for c in coeffs]:
+        site = "%s::operator+=:%s" % (cls, fldname)
+        got = a.f[cls + "::" + fldname]
+        if sp.simplify(sp.sympify(got) - want_) == 0:
+            r6.ok(site, f.loc(), "== %s (interpreted summary)" % want_, cfgname)
+        else:
+            r6.bad(site, f.loc(), "after the merge %s is %s, expected %s" % (fldname, got, want_), cfgname)
+    site = "%s::operator+=:argument-unchanged" % cls
+    if b.f[cls + "::Weight"] == W2 and b.f[cls + "::Poles"] == Q and all(b.f[cls + "::" + c] == C2[c] for c in coeffs):
+        r6.ok(site, f.loc(), "the merged-in term is left as it was", cfgname)
+    else:
+        r6.bad(site, f.loc(), "the merged-in term is modified by the merge", cfgname)
+
+
+
 def body(chk, db, cfgname):
     # ================================================================== R1
     r1 = chk.rule("C02-R1", "multi-term of Hafermann et al.: poles and the six coefficients handed to the term lists", "F6 formula", 6)
@@ -514,61 +559,11 @@ def body(chk, db, cfgname):
         else:
             r5.bad(site, f.loc(), "Matsubara numbers are not mapped to the fermionic frequencies i*pi*(2n+1)/beta in order", cfgname)
     # ================================================================== R6
-    r6 = chk.rule("C02-R6", "merging of similar terms (operator+=): poles averaged with the weights *before* the merge, weights and coefficients added", "F6 formula + symbolic environment", 9)
+    r6 = chk.rule("C02-R6", "merging of similar terms (operator+=): poles averaged with the weights *before* the merge, weights and coefficients added", "F6 formula + interpreted summary", 9)
     for cls, coeffs in ((NR, ("Coeff",)), (RT, ("ResCoeff", "NonResCoeff"))):
         f = db.fn(cls + "::operator+=")
         with r6.guard(cls + "::operator+=", f.loc(), cfgname):
-            ctx = Ctx(f, db)
-            envs = env_at(f, ctx)
-            other = pk(f, 0)
-            F = Formula()
-            W = F.name_atom(fld(cls + "::Weight"), "W")
-            W2 = F.name_atom(("field", cls + "::Weight", other), "W'")
-            covered = set()
-            for j, n in f.walk(f.body):
-                if not (n["k"] == "bin" and n["op"] in ASSIGN_OPS):
-                    continue
-                tk = ctx.key(n["l"], inline=False)
-                if not (tk[0] == "op" and tk[1] == "[]" and len(tk) == 4 and tk[2] == fld(cls + "::Poles")):
-                    continue
-                if n["op"] != "=":
-                    raise AnalysisBroken("compound assignment to Poles[]")
-                idx = tk[3]
-                Pa = F.name_atom(("op", "[]", fld(cls + "::Poles"), idx), "P[%s]" % _nm(idx))
-                P2 = F.name_atom(("op", "[]", ("field", cls + "::Poles", other), idx), "P'[%s]" % _nm(idx))
-                got = F.conv(value_key(f, ctx, envs, n["r"], j))
-                want_ = (W * Pa + W2 * P2) / (W + W2)
-                site = "%s::operator+=:Poles[%s]" % (cls, _nm(idx))
-                if F.equal(got, want_):
-                    r6.ok(site, f.loc(j), "== (W P + W' P')/(W + W')", cfgname)
-                else:
-                    r6.bad(site, f.loc(j), "merged pole is %s, expected %s%s" % (got, want_, lh.wit(F, got, want_)), cfgname)
-                # which elements: literal index, or the counter of a loop 0 <= p < 3
-                if idx[0] == "lit":
-                    covered.add(idx[1])
-                elif idx[0] == "var":
-                    for L in enclosing_loops(f, j):
-                        sh = loop_shape(f, ctx, L)
-                        if sh["kind"] == "index" and sh["var"][:2] == idx[:2] and sh["start"] == ("lit", 0) and sh["bound"][0] == "lit" and no_early_exit(sh):
-                            covered |= set(range(0, sh["bound"][1] + (1 if sh["rel"] == "<=" else 0)))
-            site = "%s::operator+=:all-poles" % cls
-            if covered >= {0, 1, 2}:
-                r6.ok(site, f.loc(), "poles 0,1,2 are merged", cfgname)
-            else:
-                r6.bad(site, f.loc(), "only poles %s are merged" % sorted(covered), cfgname)
-            rets = [j for j, n in f.walk(f.body) if n["k"] == "return"]
-            for j in rets:
-                env = envs.get(f.cfg.pos1(j), {})
-                for fldname, want_ in [("Weight", W + W2)] + [(c, None) for c in coeffs]:
-                    site = "%s::operator+=:%s" % (cls, fldname)
-                    if want_ is None:
-                        want_ = F.name_atom(fld(cls + "::" + fldname), fldname) + F.name_atom(("field", cls + "::" + fldname, other), fldname + "'")
-                    v = env.get(("f", cls + "::" + fldname))
-                    got = F.conv(v) if v is not None else F.conv(fld(cls + "::" + fldname))
-                    if F.equal(got, want_):
-                        r6.ok(site, f.loc(j), "== %s" % want_, cfgname)
-                    else:
-                        r6.bad(site, f.loc(j), "after the merge %s is %s, expected %s" % (fldname, got, want_), cfgname)
+            _merge_by_interpretation(r6, db, f, cls, coeffs, cfgname)
     # ================================================================== R7
     r7 = chk.rule("C02-R7", "tolerances set on the container / on the function reach the parts under their own names (resonance tolerance -> resonance tolerance, ...)", "F4 same-role wiring", 6)
     for f in sorted([x for x in db.fns.values() if x.rec in (G2, "Pomerol::TwoParticleGFContainer") and x.body is not None and x.body >= 0], key=lambda x: (x.file, x.line)):
